@@ -135,6 +135,54 @@ func checkNewTable(w *World, r *Result) {
 func checkIsComposite(w *World, r *Result) {
 	fi := w.MustFunc("analysis/sql.isComposite")
 	info := fi.Pkg.TypesInfo
+	// first, by evaluation: the loop over the fields is interpreted for one abstract field type per case that
+	// matters; a field must be accepted exactly when it is an integer enum or an integer basic. The syntactic
+	// reading below is only used when the code steps outside the interpreted language.
+	var floop *ast.RangeStmt
+	ast.Inspect(fi.Decl.Body, func(x ast.Node) bool {
+		if rs, ok := x.(*ast.RangeStmt); ok && floop == nil && strings.HasSuffix(es(rs.X), ".Fields") {
+			floop = rs
+		}
+		return true
+	})
+	if floop != nil {
+		domain := []struct {
+			n      absNode
+			accept bool
+			label  string
+		}{
+			{absNode{kind: "Enum", isInteger: true}, true, "integer enum"},
+			{absNode{kind: "Enum"}, false, "non-integer enum"},
+			{absNode{kind: "Basic", kindInt: true}, true, "integer basic"},
+			{absNode{kind: "Basic"}, false, "non-integer basic (float, string, bool)"},
+			{absNode{kind: "Struct"}, false, "struct"}, {absNode{kind: "Named"}, false, "named"}, {absNode{kind: "Array"}, false, "array"},
+			{absNode{kind: "Map"}, false, "map"}, {absNode{kind: "Time"}, false, "time"}, {absNode{kind: "Union"}, false, "union"}, {absNode{kind: "Pointer"}, false, "pointer"},
+		}
+		decided, wrong := true, ""
+		for i := range domain {
+			d := &domain[i]
+			got := fieldLoopDecision(w, fi, floop, &d.n)
+			if got == "" {
+				decided = false
+				break
+			}
+			if (got == "accept") != d.accept {
+				wrong += d.label + " is " + got + "ed; "
+			}
+		}
+		// after the loop the function must answer true
+		endsTrue := false
+		if n := len(fi.Decl.Body.List); n > 0 {
+			if ret, ok := fi.Decl.Body.List[n-1].(*ast.ReturnStmt); ok && len(ret.Results) == 1 && es(ret.Results[0]) == "true" {
+				endsTrue = true
+			}
+		}
+		if decided && endsTrue {
+			r.cond(wrong == "", "AGR-C08k", fi.Name, "composite = all fields are integer basics or integer enums", w.Pos(floop.Pos()),
+				"evaluated over every kind of field type: a field is accepted exactly when it is an Enum with IsInteger() or a Basic of kind BKInt", "isComposite decides wrongly for some field types ("+wrong+"): structs with non-integer fields (e.g. floats) become composite types instead of jsonb, or integer-only structs are no longer composite")
+			return
+		}
+	}
 	// the function is a filter over the fields: every `return false` is a rejection, described by the conditions
 	// of its path (type-switch clause of the field's node, test on the bound value); the fall-through is `return true`
 	var rejections, accepts []string
